@@ -72,13 +72,29 @@ def load_prop(pid):
     return importlib.import_module("sim.props." + pid)
 
 
-def _alarm(signum, frame):
-    raise RunTimeout()
+from . import watchdog  # noqa: E402
+_arm = watchdog.arm
 
 
-def _arm(seconds):
-    signal.setitimer(signal.ITIMER_PROF, seconds)
-    signal.setitimer(signal.ITIMER_REAL, seconds * 15)
+def guarded_check(mod, case, pid, seconds):
+    """mod.check(case) under the watchdog; a timeout while the tree under test is executing is a violation
+    ("does not terminate"), otherwise it propagates (harness error)"""
+    watchdog.install()
+    try:
+        _arm(seconds)
+        res = mod.check(case)
+        _arm(0)
+        return res
+    except RunTimeout as e:
+        _arm(0)
+        if not e.inside:
+            raise
+        res = Result()
+        clause, sig = watchdog.timeout_sig(pid, e)
+        res.v(clause, sig, "the run did not finish within %ss of CPU time; the watchdog fired inside the tree under test (%s): does not terminate" % (seconds, e.site))
+        return res
+    finally:
+        _arm(0)
 
 
 def _worker(args):
@@ -87,8 +103,7 @@ def _worker(args):
     mod = load_prop(pid)
     # the per-run limit counts CPU time of this process (ITIMER_PROF), so a loaded machine does not turn into timeouts;
     # a generous wall-clock limit (ITIMER_REAL) stays as a backstop against blocking
-    signal.signal(signal.SIGALRM, _alarm)
-    signal.signal(signal.SIGPROF, _alarm)
+    watchdog.install()
     stats = collections.Counter()
     keys = set()
     scheds = set()
@@ -115,13 +130,15 @@ def _worker(args):
             case["_run"] = {"index": i, "seed": seed, "start": start, "stride": stride, "tier": tier, "base": base}
             res = mod.check(case)
             _arm(0)
-        except RunTimeout:
+        except RunTimeout as e:
             _arm(0)
-            if getattr(mod, "TIMEOUT_IS_VIOLATION", False) and case is not None:
+            if e.inside and case is not None:
+                # the tree under test was executing when the CPU-time limit was reached: it does not terminate
                 res = Result()
-                res.v(pid + ".c", "%s.c:timeout" % pid, "run exceeded %ss wall: does not terminate" % run_timeout)
+                clause, sig = watchdog.timeout_sig(pid, e)
+                res.v(clause, sig, "the run did not finish within %ss of CPU time; the watchdog fired inside the tree under test (%s): does not terminate" % (run_timeout, e.site))
             else:
-                harness.append({"index": i, "seed": seed, "error": "run timeout", "case": _strip(case)})
+                harness.append({"index": i, "seed": seed, "error": "run timeout (watchdog fired in %s)" % e.site, "case": _strip(case)})
                 i += stride
                 continue
         except Exception:
@@ -140,9 +157,7 @@ def _worker(args):
         if len(samples) < 2 and (start < 4):
             samples.append(_strip(case))
         i += stride
-    _arm(0)
-    signal.signal(signal.SIGALRM, signal.SIG_IGN)
-    signal.signal(signal.SIGPROF, signal.SIG_IGN)
+    watchdog.uninstall()
     return {"done": done, "stats": stats, "keys": keys, "scheds": scheds, "ctxs": ctxs, "viols": viols,
             "harness": harness[:5], "n_harness": len(harness), "samples": samples}
 
@@ -221,8 +236,8 @@ def minimise(mod, case, clause, sig, budget_s=60):
     """greedy shrinking: accept a candidate only if the same clause with the same signature fails"""
     def fails(c):
         try:
-            r = mod.check(c)
-        except Exception:
+            r = guarded_check(mod, c, clause.split(".")[0], 20)
+        except (Exception, RunTimeout):
             return False
         return any(v.clause == clause and v.sig == sig for v in r.violations)
 
@@ -269,7 +284,7 @@ def replay_file(pid, path):
         rp = json.load(f)
     if rp.get("history"):
         return rp, run_history(pid, rp["history"])
-    res = mod.check(rp["case"])
+    res = guarded_check(mod, rp["case"], pid, mod.TIERS["quick"].get("run_timeout", 20))
     return rp, [v.as_dict() for v in res.violations]
 
 
@@ -286,9 +301,9 @@ def run_history(pid, hist):
             if case is None:
                 continue
             case["_run"] = {"index": i, "seed": seed, "tier": hist["tier"], "base": hist["base"]}
-            res = mod.check(case)
+            res = guarded_check(mod, case, pid, mod.TIERS["quick"].get("run_timeout", 20))
             last = [v.as_dict() for v in res.violations]
-        except Exception:
+        except (Exception, RunTimeout):
             last = []
     return last
 
@@ -403,9 +418,9 @@ def main_check(pid, tier, runs=None, budget=None, jobs=None, replay=None, eviden
         small = minimise(mod, case, v["clause"], v["sig"], budget_s=cfg.get("min_budget", 45))
         # re-evaluate to get the message of the minimised case
         try:
-            rr = mod.check(small)
+            rr = guarded_check(mod, small, pid, run_timeout)
             vv = next((x.as_dict() for x in rr.violations if x.clause == v["clause"] and x.sig == v["sig"]), v)
-        except Exception:
+        except (Exception, RunTimeout):
             vv = v
         path = write_replay(pid, small, vv)
         ok, outp = confirm_in_fresh_process(pid, path)
